@@ -549,7 +549,7 @@ where
                     }
                     SVerdict::Fail(f) => {
                         let sig = f.signature();
-                        if known.iter().any(|k| k.signature == sig) {
+                        if known.iter().any(|k| sig_matches(&k.signature, &sig)) {
                             if acc.counting {
                                 *acc.rep.known.entry(sig).or_insert(0) += 1;
                                 acc.record(&case, hash(&case), size_of(&case), false, &stats);
